@@ -207,7 +207,8 @@ def check(prog, rep):
         lst = U(c.func.value)
         branch = next((tst for tst, p in guards_of(c) if p and "self.type" in U(tst)), None)
         fill = [x for x in iter_stmts(fcn.body) if isinstance(x, ast.Expr) and isinstance(x.value, ast.Call) and U(x.value.func) == f"{lst}.append"]
-        conds = [U(tst) for x in fill for tst, p in guards_of(x) if p and "atom." in U(tst)]
+        from ..core import canon_guards
+        conds = [tst for x in fill for tst, p in canon_guards(x) if p and "atom." in tst]
         # the branch fixes element and bond order of self; the candidate filter must fix the same two
         want_bo = None
         if branch is not None:
